@@ -351,17 +351,17 @@ var c11Muts = []c11Mut{
 }
 
 var c11Sets = map[string][]string{
-	"https-single":   {"https://app.example/cb"},
-	"https-several":  {"https://app.example/cb", "https://app.example/cb2"},
-	"loopback-v4":    {"http://127.0.0.1/cb"},
-	"loopback-v4-pq": {"http://127.0.0.1:8080/cb?x=1"},
-	"loopback-v6":    {"http://[::1]/cb"},
-	"localhost-name": {"http://localhost/cb"},
-	"custom-scheme":  {"com.example.app://cb/path"},
-	"with-userinfo":  {"https://user@app.example/cb"},
-	"plain-http":     {"http://app.example/cb"},
-	"with-query":     {"https://app.example/cb?foo=bar&a=b"},
-	"loopback+https": {"https://app.example/cb", "http://127.0.0.1/cb"},
+	"https-single":                 {"https://app.example/cb"},
+	"https-several":                {"https://app.example/cb", "https://app.example/cb2"},
+	"loopback-v4":                  {"http://127.0.0.1/cb"},
+	"loopback-v4-pq":               {"http://127.0.0.1:8080/cb?x=1"},
+	"loopback-v6":                  {"http://[::1]/cb"},
+	"localhost-name":               {"http://localhost/cb"},
+	"custom-scheme":                {"com.example.app://cb/path"},
+	"with-userinfo":                {"https://user@app.example/cb"},
+	"plain-http":                   {"http://app.example/cb"},
+	"with-query":                   {"https://app.example/cb?foo=bar&a=b"},
+	"loopback+https":               {"https://app.example/cb", "http://127.0.0.1/cb"},
 	"http-localhost-lookalike":     {"http://localhost.files-cdn.example/cb"},
 	"http-sub-localhost-lookalike": {"http://app.localhost.x.example:8080/cb"},
 	"http-dot-localhost":           {"http://app.localhost/cb"},
